@@ -685,6 +685,7 @@ func TestC02(t *testing.T) {
 		kC02.Run(t, ev, perShard(pick(10000, 6000000)))
 		runConcurrent(kC02, t, ev, perShard(pick(200, 20000)), 8)
 		kC02Conc.Run(t, ev, perShard(pick(300, 30000)))
+		kC02Alias.Run(t, ev, perShard(pick(120, 6000)))
 		ev.requireClasses("C02:class-A", "C02:class-B", "C02:class-C", "C02:class-D", "C02:class-E",
 			"C02:accepted-cash", "C02:accepted-slp", "C02:accepted-legacy", "C02:accepted-pubkey", "C02:outer-layer-passed")
 	})
